@@ -415,6 +415,23 @@ class NumpyProxy:
     def ones_like(self, a, dtype=None, **kw):
         return self._alloc("ones_like", a, dtype, True, 1.0, kw)
 
+    # ---- conversions that involve a modelled dtype
+    def asarray(self, a, dtype=None, **kw):
+        if isinstance(dtype, SymDType):
+            self._ov("asarray")
+            src = _np.asarray(a, dtype=object) if not isinstance(a, _np.ndarray) else a
+            out = SymArray(_np.empty(_np.shape(src), dtype=object), dtype.name)
+            _np.ndarray.__setitem__(out, Ellipsis, out._cast(_np.asarray(src, dtype=object)))
+            return out
+        if isinstance(a, SymArray) and dtype is None:
+            return a  # keeps the modelled dtype (real numpy would return the array itself too)
+        return _np.asarray(a, dtype=dtype, **kw)
+
+    def array(self, a, dtype=None, **kw):
+        if isinstance(dtype, SymDType):
+            return self.asarray(a, dtype=dtype)
+        return _np.array(a, dtype=dtype, **kw)
+
     # ---- dtype arithmetic on modelled dtypes (delegated to real numpy on the modelled names)
     def _dt(self, d):
         if isinstance(d, SymDType):
